@@ -84,24 +84,28 @@ CLAIMS = {
          "offline registry). Found and fixed with this check: D11 (exit skipped when the inner service errs; fix: commit a01c729)."),
  "C19": dict(
     category="proof",
-    text=("PARTIAL (see note). Model: the writer as a function to the list of file actions it issues (create / append / remove, in program order; day and size roll-over, numbering of the "
-          "next file, retention), the directory as explicit byte files, the 16-byte big-endian index, the line readers (UTF-8, line splitting, MetricItem::from_string from C18) and the searcher "
-          "with its position cache. Proved in Lean for the model: search_range_finds_all (for every well-formed directory - any number of files, any roll-over points, a second continuing in the "
-          "next file - every window and resource, the time-range search of a fresh searcher returns exactly the held items of the window, in write order), on top of unbe64_be64, findEntry_idxOf "
-          "(the index search returns the first group at/after the begin second and the offset of its first line, also with a torn last entry), decodeUtf8_encode (UTF-8 round trip for every "
-          "character), parseLine_lineOf (a printed item is one line and parses back, using C18 line_roundtrip), splitLines_items, rangeLoop_good. Tie: the real DefaultMetricLogWriter / "
-          "DefaultMetricSearcher (feature metric_log) run under strace; the observed system-call stream (creates, appended bytes, removals, per operation) must equal the model's action list, "
-          "searches on the live directory (long-lived and fresh searchers) and on crash states materialised from prefixes of the observed stream (event boundaries, every byte of index entries, "
-          "bytes of lines incl. inside a multi-byte character) must equal the model's answers, and the Spec is evaluated on the implementation's answers: range search = held items of the window; "
-          "line-limited search = the first lines (at least n, whole seconds); retention keeps the newest max-file-count files; after a crash every item with a complete line and index entry comes "
-          "back in order, at most the torn line extra, never an error or panic."),
+    text=("Model: the writer as a function to the list of file actions it issues (create / append / remove, in program order; day and size roll-over, numbering of the next file, "
+          "retention), the directory as explicit byte files, the 16-byte big-endian index, the line readers (UTF-8, line splitting, MetricItem::from_string from C18) and the searcher with "
+          "its position cache. Proved in Lean: written_items_are_found - for EVERY write history (any timestamps incl. repeated, older and day-changing seconds, empty batches; any size "
+          "limit and max file count; items with any u64 counters and any names without line breaks) the directory the writer leaves is well-formed and a time-range search by a fresh searcher "
+          "returns, for every window and resource, exactly the accepted items that retention has not removed, in write order (held = a suffix of the accepted items). It rests on "
+          "new_writer_well_formed / write_keeps_well_formed (invariant WInv: the directory is, byte for byte, the abstract log; induction over the history: run_inv), rollover_spec + "
+          "retention_keeps_newest (a roll-over removes only the oldest files beyond the limit and the new name sorts last), search_range_finds_all (byte-level search = filter, any number "
+          "of files, a second continuing in the next file), index_search_first_entry (also with a torn last entry), index_entry_roundtrip, utf8_roundtrip (every character), "
+          "written_line_reads_back (with C18 line_roundtrip). PARTIAL: the line-limited search, searches through a cached position and crash prefixes are not theorems yet; they are decided "
+          "by the tie. Tie: the real DefaultMetricLogWriter / DefaultMetricSearcher (feature metric_log) run under strace; the observed system-call stream (creates, appended bytes, removals "
+          "per operation) must equal the model's action list; searches on the live directory (long-lived and fresh searchers) and on crash states materialised from prefixes of the observed "
+          "stream (event boundaries, every byte of index entries, bytes of lines incl. inside a multi-byte character) must equal the model's answers; the Spec is evaluated on the "
+          "implementation's answers: range search = held items of the window; line-limited search = the first lines (at least n, whole seconds); retention keeps the newest max-file-count "
+          "files; after a crash every item with a complete line and index entry comes back in order, at most the torn line extra, never an error or panic."),
     design_ref="DESIGN.md §6 C19",
-    technique="Lean 4 refinement proof (byte-level directory vs abstract groups; search = filter) + differential correspondence on the observed system-call stream incl. crash prefixes + Spec oracle on implementation answers",
-    note=NOTE_COMMON + " Own harness crate /verif/harness-mlog (sentinel-core with feature metric_log). Not yet theorems (decided by correspondence + Spec on traces only): the writer invariant "
-         "(every write history yields a well-formed directory), the line-limited search, the cached position, crash prefixes. strace and gen/C19.py (cutting the log, canonical file names, "
-         "materialising prefixes) are trusted; without strace the stream is the model's and only the directory listing after each write is compared. Resource names without line breaks; "
-         "searches by resource use the stored name ('|' replaced). Found and fixed: D10 (five reader/searcher/writer defects: 2f799c9 01ad495 96e47ad 11e672b 4500944, by reading, before this "
-         "check existed; their witness histories are corpus/C19/d10_history.ops) and D15 (a line torn inside a multi-byte character made every search fail; fix: commit cdbba64, found by this check)."),
+    technique="Lean 4 refinement proof (byte-level directory vs abstract groups; writer invariant by induction over write histories; search = filter) + differential correspondence on the observed system-call stream incl. crash prefixes + Spec oracle on implementation answers",
+    note=NOTE_COMMON + " Own harness crate /verif/harness-mlog (sentinel-core with feature metric_log). strace and gen/C19.py (cutting the log, canonical file names L<day>.<no>, materialising "
+         "prefixes) are trusted; file names are modelled as (day, running number), the date text is compared through Python's datetime; without strace the stream is the model's and only the "
+         "directory listing after each write is compared (tag nostream in the evidence). Resource names without line breaks (a name containing a line break splits its line: characterised, outside "
+         "the quantifier); searches by resource use the stored name ('|' replaced, C18). Found and fixed: D10 (five reader/searcher/writer defects: 2f799c9 01ad495 96e47ad 11e672b 4500944, by "
+         "reading, before this check existed; witness histories in corpus/C19/d10_history.ops) and D15 (a line torn inside a multi-byte character made every search fail; fix: commit cdbba64, "
+         "found by this check)."),
  "C14": dict(
     category="proof",
     text=("Theorems over every interleaving of any number of threads (Interleaving ps h: any history keeping each thread's program order; interleaving_perm): conc_eq_open (in-flight counter = "
